@@ -388,6 +388,14 @@ class Rng:
     def chance(self, num, den):
         return self.below(den) < num
 
+    def sample(self, seq, k):
+        """k distinct elements, in the order drawn"""
+        pool = list(seq)
+        out = []
+        for _ in range(min(k, len(pool))):
+            out.append(pool.pop(self.below(len(pool))))
+        return out
+
 
 def cps(s):
     return "-" if s == "" else " ".join(str(ord(c)) for c in s)
